@@ -452,11 +452,24 @@ pub fn run(cli: Cli) -> ! {
         cfgs.push(Cfg { secret: true, status: "full", disc_ms: 0, one_byte: true, ka_stall: false, burst: false });
         cfgs.push(Cfg { secret: false, status: "minimal", disc_ms: 17_000, one_byte: true, ka_stall: false, burst: false });
     }
+    // Two connections in one process, one after the other: the first ends badly with a clientbound frame stuck in
+    // the transport; the fresh connection that follows must be served exactly as if it were the first ever
+    // (sequential, before the parallel sweep, so that nothing else can be the source of what it sees).
+    {
+        let hist = crate::sim::after_an_aborted_connection(Some(b"earlier-secret".to_vec()));
+        for (label, first, second, alone, after) in &hist {
+            let _ = (first, second);
+            if let Some(d) = crate::sim::differs_from_alone(alone, after) {
+                rep.violation(Violation { key: "reply-from-an-earlier-connection".into(), text: format!("{label}: {d}"), replay: json!({"earlier": label}), weight: 7 });
+            }
+        }
+        rep.set("histories_after_an_aborted_connection", json!(hist.len()));
+    }
     let depth_cap = if thorough { 11 } else { 9 };
     // in the configuration phase only this many further packets are explored per history
     let conf_extra = if thorough { 3 } else { 2 };
 
-    if let Some(case) = cli.replay.clone() {
+    if let Some(case) = cli.replay.clone().filter(|c| c.get("earlier").is_none()) {
         let names: Vec<String> = serde_json::from_value(case["history"].clone()).unwrap_or_default();
         let hist: Vec<Kind> = names.iter().filter_map(|n| all_kinds.iter().find(|k| k.name == n).cloned()).collect();
         let cfg = Cfg { secret: case["secret"].as_bool().unwrap_or(false), status: match case["status"].as_str() { Some("none") => "none", Some("full") => "full", _ => "minimal" }, disc_ms: case["disc_ms"].as_u64().unwrap_or(0), one_byte: case["one_byte"].as_bool().unwrap_or(false), ka_stall: case["ka_stall"].as_bool().unwrap_or(false), burst: case["burst"].as_bool().unwrap_or(false) };
